@@ -34,6 +34,14 @@ CHECKS["C01"] = ("exploration", "DESIGN.md §7 C01",
     "executable reference scanner and TLV decoder over the same image.",
     "Trusts the independent builder/scanner (anchored to the repository's real samples in selftest anchors); all-keys runs with several candidate leftover keys are discarded as ambiguous.")
 
+CHECKS["C08"] = ("fault_enumeration", "DESIGN.md §7 C08",
+    "deterministic simulation with storage fault injection: systematic truncation/crafted-field/bit-flip grid + seeded multi-fault plans through all entry points; reader-call budget + stall detector as the termination clock",
+    "Every mapped truncation, crafted structure-field value and header bit flip (thorough: all bits; quick: a fixed subsample) "
+    "of 9 builder base images, plus seeded multi-fault combinations, splices, garbage and the 7 real samples, are pushed "
+    "through all 12 untrusted-bytes entry points on a simulated device; outcome must be a documented value or ValueError "
+    "within the reader-call budget. Fault enumeration per base image; the set of base images is sampled.",
+    "Termination is judged by reader-call budget and stall detector (a loop doing no I/O would only hit the wall backstop); ValueError is accepted from every entry point.")
+
 NOT_APPLICABLE = {
     "C02": "Pure function config-block bytes -> settings/views; no schedule, clock, fault, reader state or history for a simulator to control.",
     "C03": "Pure decoders of binary sub-encodings (bytes -> steps/strings); nothing to inject or interleave.",
